@@ -563,31 +563,47 @@ def changes_something(prod, a):
 
 
 def gen_walk(rng, n):
-    """random walk: mostly enabled actions, client builders also when they will be refused."""
+    """random walk (at most n actions): a category is drawn first (client builder / delivery / receipt / exchange action),
+    then an action of it; terminal exchange actions are rare so that walks stay alive; a few disabled actions are mixed in."""
     init = list(DEFAULT_INIT)
     init[0] = rng.choice(["ord", "a--b", "x-1", "o--7--", "id 9"])
     init[3] = rng.choice([800, 401, 2])
-    init[4] = rng.choice([40, 8, 3])
+    init[4] = rng.choice([400, 40, 8, 3])
     if rng.random() < 0.3:
         init[7] = rng.choice([0, 799, 1200])
     prod = Product(init)
     acts = []
+    idle = 0
     for _ in range(n):
         fills = sorted({1, 2, 4, max(prod.x.leaves, 1), max(prod.x.leaves - 1, 1)})
         q0 = num(prod.o.qty)
         repls = [(None, None), (num(prod.o.price) + 4, None), (None, q0 + 8), (1, 0), (num(prod.o.price), q0),
                  (None, max(prod.x.cum, 1)), (None, prod.x.cum - 1), (402, q0 + 2), (None, -4), (0, None)]
-        cands = candidate_actions(prod, fills, repls)
-        live = [a for a in cands if changes_something(prod, a)]
         r = rng.random()
-        if r < 0.08:
-            a = rng.choice(cands)
+        if r < 0.04:
+            a = rng.choice(candidate_actions(prod, fills, repls))
         else:
-            # favour deliveries and receipts so that queues drain, but keep races frequent
-            w = [(3 if a[0] in (3, 4) else (2 if a[0] in (1, 2, 13, 17) else 1)) for a in live]
-            a = rng.choices(live, weights=w)[0]
+            r = rng.random()
+            if r < 0.16:
+                a = rng.choice([[0], [1], [1]] + [[2, p, q] for p, q in repls])
+            elif r < 0.42 and prod.x2c:
+                a = [3]
+            elif r < 0.58 and prod.c2x:
+                a = [4]
+            else:
+                xs = [a for a in [[13, f, 800 + f] for f in fills] + XACTS if prod.x.enabled(a)]
+                if xs:
+                    w = [0.03 if (a[0] in (12, 18, 19) or (a[0] == 13 and a[1] == prod.x.leaves)) else (0.3 if a[0] == 15 else
+                         (2.0 if a[0] in (13, 17) else 1.0)) for a in xs]
+                    a = rng.choices(xs, weights=w)[0]
+                else:
+                    a = [3] if prod.x2c else ([4] if prod.c2x else [0])
         acts.append(a)
+        before = prod.key()
         prod.step(a)
+        idle = idle + 1 if prod.key() == before else 0
+        if idle >= 6:
+            break
     return init, acts
 
 
@@ -753,12 +769,12 @@ def run(ctx):
 
     walks = corpus() + [(list(DEFAULT_INIT), D17_WITNESS + [[1]])]
     # bounded exhaustive
-    init, paths, nstates = explore(ctx.scale(8, 11), ctx.scale(9000, 200000))
-    ctx.extra["exhaustive"] = {"depth": ctx.scale(8, 11), "product_states": nstates, "paths": len(paths)}
+    init, paths, nstates = explore(ctx.scale(10, 12), ctx.scale(20000, 200000))
+    ctx.extra["exhaustive"] = {"depth": ctx.scale(10, 12), "product_states": nstates, "paths": len(paths)}
     walks += [(init, p) for p in paths]
     n_ex = len(walks)
     # random walks
-    for _ in range(ctx.scale(220, 6000)):
+    for _ in range(ctx.scale(1200, 20000)):
         walks.append(gen_walk(ctx.rng, 200))
     solos = [gen_solo(ctx.rng, ctx.rng.randrange(5, 40)) for _ in range(ctx.scale(400, 8000))]
     texts = ["", "a", "--1", "a--1", "a--b--12", "a---5", "a--1--x", "x--", "a--12b", "a-1", "0--0", "ab--007"] + [
